@@ -406,7 +406,12 @@ def run_case(ctx, case):
         return
     rp = signac.Project(path)
     try:
-        rp.repair()
+        if len(damaged) % 2:
+            rp.repair()
+        else:
+            # the ids to repair are documented as an iterable: here one that can be walked only once
+            ctx.count("repair_given_one_shot_iterable")
+            rp.repair(job_ids=iter(sorted(names)))
         rerr = None
     except JobsCorruptedError as e:
         rerr = e
